@@ -869,6 +869,24 @@ theorem forward_compat_root (env : Env) (cfg : Cfg) (f : Nat) (c : Name) (d : St
     have := hfc v' x r h1 h2 h3
     simp only [decObj, visObj, hl, hp, hh, if_true, this, List.nil_append]
 
+/-! ## dispatch -/
+
+theorem dispatch_unknown {p : ProtoDef} {impl : Name → Bool} {id : Nat} (h : findMethodById p id = none) :
+    dispatch p impl id = .notImplemented := by simp [dispatch, h]
+
+theorem dispatch_unsupported {p : ProtoDef} {impl : Name → Bool} {id : Nat} {m : MethodDef}
+    (h : findMethodById p id = some m) (hs : m.supported = false) : dispatch p impl id = .notImplemented := by
+  simp [dispatch, h, hs]
+
+theorem dispatch_unimplemented {p : ProtoDef} {impl : Name → Bool} {id : Nat} {m : MethodDef}
+    (h : findMethodById p id = some m) (hi : impl m.name = false) : dispatch p impl id = .notImplemented := by
+  simp [dispatch, h, hi]
+
+theorem dispatch_run {p : ProtoDef} {impl : Name → Bool} {id : Nat} {m : MethodDef}
+    (h : findMethodById p id = some m) (hs : m.supported = true) (hi : impl m.name = true) :
+    dispatch p impl id = .run m := by
+  simp [dispatch, h, hs, hi]
+
 /-! ## RMC client settings -/
 
 theorem rmcClientCfg_header (cfg : Cfg) (minor : Nat) (h : minor ≥ 3) : (rmcClientCfg cfg minor).structHeader = true := by
